@@ -236,6 +236,21 @@ def check_to_string(f, fn, rep, analyze_fn):
             if c.declared_norm in ("option::Option::map_or_else", "option::Option::map_or", "option::Option::map") and hit \
                     and c.args and c.args[0].mentions(hit[0].result) and any(converts(x) for x in c.args[1:]):
                 ok2 = True
+        if not ok2 and hit:
+            # ... or through a private helper `h(opt, ..)` whose own Some(s) case converts s
+            from ..engine import program
+            prog_ = program(f)
+            for c in calls:
+                lf_ = prog_.local_fn(c.callee)
+                if lf_ is None or prog_.known_name(lf_) or lf_["qual"] == stem:
+                    continue
+                for k_, a_ in enumerate(c.args):
+                    if a_ is hit[0].result or a_.mentions(hit[0].result):
+                        han = analyze_fn(f, lf_)
+                        pk = T.param(k_ + 1)
+                        for c2 in han.calls():
+                            if c2.declared_norm in CONV and c2.args and c2.args[0].mentions(pk) and ("var", pk, "Some") in c2.facts:
+                                ok2 = True
         rep.require(ok2, "to-string", fn["qual"] + ":some", w, "Some(s) branch converts s",
                     "%s: the Some(s) result of %s does not flow into the returned String" % (fn["qual"], stem))
     # numeric fallback: a fmt argument constructed from a reference to the parameter (in the function or in a closure that captures it)
